@@ -398,6 +398,8 @@ func runC15(c *eng.Ctx) {
 		get := c.One(ld, invokeOn("", "Get"), "reader.Get(key)")
 		_ = get
 		c.Check(len(p.Sites(ld, eng.CallTo("errors.Is"))) > 0, "absent-in-one-file-continues", nil, ld, "ErrKeyNotExist from one file continues with the next file", "")
+		visitsEveryElement(c, ld, "load-leaves-the-scan-only-with-an-error",
+			"a snapshot lookup goes on to the next selected file unless it fails: a file that spans the key without holding it does not end the lookup")
 	})
 
 	// ---- 7. merged iterator ------------------------------------------------------------------------------------------------------------------
